@@ -224,7 +224,12 @@ class ListField(Field):
             and value.cfg is cfg
         ):
             # already the validated list of this field in this configuration (e.g. the one built
-            # while loading): keep it, its items compute their position from it
+            # while loading): keep it, its items compute their position from it - also when the
+            # list was derived from another one (``lst + [...]``, ``lst.copy()``), whose items
+            # still point at the list they were taken from
+            for item in value:
+                if isinstance(item, Config):
+                    item._container = value
             return value
 
         proxy = ListProxy(cfg, self, value)
